@@ -363,7 +363,10 @@ def extra_short_series(ctx, rec):
                 c["lon"], c["lat"] = c["lon"][:n], c["lat"][:n]
                 c["lon"] += [0] * (n - len(c["lon"]))
                 c["lat"] += [0] * (n - len(c["lat"]))
-                c["hop"] = gen_qc.hops(c["lon"], c["lat"])
+                try:
+                    c["hop"] = gen_qc.hops(c["lon"], c["lat"])
+                except ValueError:      # a distance within 1e-3 of a whole metre: not representable in the model
+                    continue
                 c["t"] = list(range(0, 3600 * n, 3600)) if fn == "speed" else []
             else:
                 c["x"] = (c["x"] + [1, NA])[:n]
@@ -669,7 +672,10 @@ def long_call(g, fn, N):
         return [a[i % n0] if a[i % n0] == NA_ else a[i % n0] + bump * ((i // n0) % 2) for i in range(N)]
     if fn in ("loc", "speed"):
         c["lon"], c["lat"] = tile(c["lon"]), tile(c["lat"])
-        c["hop"] = gen_qc.hops(c["lon"], c["lat"])
+        try:
+            c["hop"] = gen_qc.hops(c["lon"], c["lat"])
+        except ValueError:
+            return None      # the repetition joins two positions whose distance is within 1e-3 of a whole metre: skip
     else:
         c["x"] = tile(c["x"], 1)
     if c["t"]:
